@@ -22,7 +22,7 @@ func checkC07(c *ev.Ctx) {
 	c.Assume("validity of reader-side streams = internal/ref accepts (and liblzma agrees when lc+lp<=4; liblzma refuses lc+lp>4)")
 	nw, nfresh, ngen := 2000, 1000, 6000
 	if thorough(c) {
-		nw, nfresh, ngen = 8000, 4000, 30000
+		nw, nfresh, ngen = 30000, 15000, 120000
 	}
 	c.MinEvals(int64(nw))
 	c.Set("liblzma_linked", lzc.Available())
